@@ -15,6 +15,7 @@ def check(tree, rep, tier='quick', seed=0):
     rep.assumptions = ['NOT decided: independence from the attempt order for all schedules additionally needs "no waiter is lost" (C06, not decided by this family); the schedule-permutation hook of the property is a dynamic device and is not used']
     core = get_core(tree)
     R.k36_mutable_defaults_untouched(core, rep)   # nothing survives from one solve / fill to the next through a default argument
+    R.k40_state_belongs_to_the_instance(core, rep)   # ... nor through a table written in a class body
     R.k38_solver_object(core, rep)
     R.k0_solve_shape(core, rep)          # every requested form is known before the first line is attempted
     an = get_analysis(tree)
